@@ -134,6 +134,46 @@ impl<T> DerefMut for Parent<T> {
     }
 }
 
+/// Verification hooks: public wrappers over the crate-private `Parent` / `Guard` / `DropAll` protocol for
+/// the out-of-tree Kani harness crates under `/verif`. `cfg(kani)` is only ever set by `cargo kani`.
+#[cfg(kani)]
+#[doc(hidden)]
+pub mod verif_hooks {
+    use super::*;
+
+    pub struct P<T>(Parent<T>);
+    pub struct G(#[allow(dead_code)] Guard);
+    pub struct D(#[allow(dead_code)] DropAll);
+
+    impl<T: Send + Sync + 'static> P<T> {
+        pub fn new(value: T) -> Self {
+            P(Parent::new(value))
+        }
+        pub fn new_guard(&self) -> G {
+            G(self.0.new_guard())
+        }
+        pub fn force_drop_guard(&self) -> D {
+            D(self.0.force_drop_guard())
+        }
+        /// what `AppendAndCloseOnDrop::flush_guard` builds
+        pub fn flush_guard(&self) -> crate::slot::FlushGuard {
+            crate::slot::FlushGuard {
+                _drop_guard: self.0.new_guard(),
+            }
+        }
+        /// what `AppendAndCloseOnDrop::force_flush_guard` builds
+        pub fn force_flush_guard(&self) -> crate::slot::ForceFlushGuard {
+            crate::slot::ForceFlushGuard::new(self.0.force_drop_guard())
+        }
+        pub fn get_mut(&mut self) -> &mut T {
+            &mut self.0
+        }
+        pub fn get(&self) -> &T {
+            &self.0
+        }
+    }
+}
+
 #[cfg(test)]
 mod test {
     use core::{
